@@ -4,6 +4,7 @@ import (
 	"errors"
 	"io"
 	"path/filepath"
+	"reflect"
 
 	"github.com/osteele/liquid/render"
 	"github.com/osteele/liquid/values"
@@ -18,10 +19,12 @@ func includeTag(source string) (func(io.Writer, render.Context) error, error) {
 		if err != nil {
 			return err
 		}
-		rel, ok := value.(string)
-		if !ok {
+		// (the string may be of a named string type)
+		rv := reflect.ValueOf(value)
+		if rv.Kind() != reflect.String {
 			return ctx.Errorf("include requires a string argument; got %s", values.Sprint(value))
 		}
+		rel := rv.String()
 		filename := filepath.Join(filepath.Dir(ctx.SourceFile()), rel)
 		s, err := ctx.RenderFile(filename, map[string]any{})
 		if err != nil {
